@@ -92,7 +92,7 @@ DEFAULT = dict(
     infoCmp='ne', infoValue=0, statesetValues=[], unitForbidden=[], tsOrderExempt=[], metricTypes=[],
     histTypes=[], untyped='', summaryNegCmp='lt', nhStructCatchesKeyError=False, nhSkipsChecks=False,
     nhSuffixRecheck=False, tsCoerce=False, nanGuardsFloat=False, leNaNNumeric=False, tsOverflowFallback=False,
-    histSkipsNh=False, tsFracStrict=False, remEscapeAware=False, tsCompareViaFloat=False)
+    histSkipsNh=False, tsFracStrict=False, remEscapeAware=False, tsCompareViaFloat=False, unitDupByNone=False)
 
 
 def _emit(ok, v, whys):
@@ -152,7 +152,8 @@ def _emit(ok, v, whys):
                    ('nanGuardsFloat', "`isinstance(sample.value, float) and math.isnan(sample.value)`"),
                    ('tsFracStrict', "_parse_timestamp, aaaa.bbbb form: `int(parts[1])` on the whole fraction and `-0.x` left to the float form"),
                    ('remEscapeAware', "_parse_remaining_text: the in-quotes flag ignores a backslash-escaped double quote"),
-                   ('leNaNNumeric', "`math.isnan(float(sample.labels.get('le', \"NaN\")))` instead of the spelling test `== \"NaN\"`")):
+                   ('leNaNNumeric', "`math.isnan(float(sample.labels.get('le', \"NaN\")))` instead of the spelling test `== \"NaN\"`"),
+                   ('unitDupByNone', "\"More than one UNIT\" is tested by `unit is not None` (false: by truthiness `if unit:`, which lets a second UNIT line pass after an EMPTY unit)")):
         out += '/-- %s -/\ndef %s : Bool := %s\n' % (doc, k, 'true' if v[k] else 'false')
     out += '/-- `re` classes of the running interpreter for str patterns: \\w, \\s, \\d (inclusive code point ranges) -/\n'
     out += 'def reWordRanges : List (Nat × Nat) := %s\n' % _rangelit(v.get('w', []))
@@ -296,6 +297,16 @@ def generate(repo):
             if assign not in body:
                 raise Fail('branch of keyword %r no longer assigns `%s`' % (k, assign))
         v['kwHelp'], v['kwType'], v['kwUnit'] = [k for k, _ in kws]
+        # the "More than one …" tests: presence is `is not None` (an empty HELP / UNIT value counts as present)
+        for word, var in (('HELP', 'documentation'), ('TYPE', 'typ'), ('UNIT', 'unit')):
+            t = ast.unparse(_if_raising(main, 'More than one %s for metric' % word).test)
+            if t == '%s is not None' % var:
+                if var == 'unit':
+                    v['unitDupByNone'] = True
+            elif var == 'unit' and t == 'unit':
+                v['unitDupByNone'] = False
+            else:
+                raise Fail('"More than one %s" test changed: %s' % (word, t))
         n = _if_raising(main, 'Invalid TYPE for metric')
         t = n.test
         if not (isinstance(t, ast.Compare) and ast.unparse(t.left) == 'typ' and isinstance(t.ops[0], ast.Eq)):
